@@ -16,23 +16,23 @@ import (
 
 // Config holds the per-harness bounds and engine options.
 type Config struct {
-	MaxInstr     int64
-	MaxAlloc     int
-	MaxFanout    int
-	MaxDecisions int
-	MaxPaths     int
-	ReverseMaps  bool
-	Bounds       map[string]int
-	Solver       string
-	TimeoutMs    int
-	Workers      int
-	Seed         int64
-	Samples      int
-	PreemptAtSync  bool // explore goroutine switches at lock acquisitions
-	RaceMaps       bool // report map accesses by different goroutines that are not ordered by happens-before
-	MaxPreemptions int
-	BudgetS      float64 // wall-clock budget per harness (0: none); exceeding it truncates
-	Progress     bool
+	MaxInstr        int64
+	MaxAlloc        int
+	MaxFanout       int
+	MaxDecisions    int
+	MaxPaths        int
+	ReverseMaps     bool
+	Bounds          map[string]int
+	Solver          string
+	TimeoutMs       int
+	Workers         int
+	Seed            int64
+	Samples         int
+	PreemptAtSync   bool // explore goroutine switches at lock acquisitions
+	RaceMaps        bool // report map accesses by different goroutines that are not ordered by happens-before
+	MaxPreemptions  int
+	BudgetS         float64 // wall-clock budget per harness (0: none); exceeding it truncates
+	Progress        bool
 	MaxViolPerLabel int
 
 	overrides map[string]*ssa.Function
@@ -87,26 +87,26 @@ type Outcome struct {
 }
 
 type pathState struct {
-	prefix     []int32
-	pos        int
-	unchecked  bool
-	trace      []int32
-	model      term.Model
-	ev         *term.Evaluator
-	modelValid bool
-	inputs     []Input
-	obs        []Obs
-	reached    []string
-	asserts    map[string]bool
-	violations []*Violation
-	inconcl    []string
-	pcLen      int
-	facts      *term.Facts
-	quickPruned int
+	prefix        []int32
+	pos           int
+	unchecked     bool
+	trace         []int32
+	model         term.Model
+	ev            *term.Evaluator
+	modelValid    bool
+	inputs        []Input
+	obs           []Obs
+	reached       []string
+	asserts       map[string]bool
+	violations    []*Violation
+	inconcl       []string
+	pcLen         int
+	facts         *term.Facts
+	quickPruned   int
 	quickFeasible int
-	trivial    int
-	symAsserts int
-	pruned     int
+	trivial       int
+	symAsserts    int
+	pruned        int
 }
 
 type workItem struct {
@@ -117,32 +117,32 @@ type workItem struct {
 
 // Stats aggregated over a harness exploration.
 type Stats struct {
-	Paths        int
-	ByOutcome    map[string]int
-	Decisions    int64
-	Instrs       int64
-	Queries      int
-	QuerySat     int
-	QueryUnsat   int
-	QueryUnknown int
+	Paths         int
+	ByOutcome     map[string]int
+	Decisions     int64
+	Instrs        int64
+	Queries       int
+	QuerySat      int
+	QueryUnsat    int
+	QueryUnknown  int
 	QuickFeasible int // alternatives shown feasible by the single-small-variable analysis (no query)
-	QuickPruned  int // alternatives refuted by partial evaluation under path equalities (no query)
-	Pruned       int // infeasible alternatives pruned at decision time
-	Trivial      int // assertions closed by the simplifier without a query
-	AssertsSym   int // assertions decided by the solver
-	SolveTime    time.Duration
-	Reached      map[string]int
-	AssertLabels map[string]int
-	Truncated    bool
-	BudgetHit    bool
-	Funcs        map[string]bool
-	Stubs        map[string]bool
-	Unsupported  []string
-	Infeasible   []string
-	Inconclusive []string
-	Engine       []string
-	Unwind       []string
-	MaxTrace     int
+	QuickPruned   int // alternatives refuted by partial evaluation under path equalities (no query)
+	Pruned        int // infeasible alternatives pruned at decision time
+	Trivial       int // assertions closed by the simplifier without a query
+	AssertsSym    int // assertions decided by the solver
+	SolveTime     time.Duration
+	Reached       map[string]int
+	AssertLabels  map[string]int
+	Truncated     bool
+	BudgetHit     bool
+	Funcs         map[string]bool
+	Stubs         map[string]bool
+	Unsupported   []string
+	Infeasible    []string
+	Inconclusive  []string
+	Engine        []string
+	Unwind        []string
+	MaxTrace      int
 }
 
 type Sample struct {
